@@ -186,6 +186,25 @@ func c06BaseModels(all bool) []c06Model {
 	return out
 }
 
+// c06IsPattern reports whether m is one of the patterned bases (a subset with all-short,
+// all-long or alternating values), i.e. a member of c06BaseModels(false).
+func c06IsPattern(m c06Model) bool {
+	if c06Alternating(m) {
+		return true
+	}
+	var first uint8
+	for _, v := range m {
+		if v != 0 {
+			if first == 0 {
+				first = v
+			} else if v != first {
+				return false
+			}
+		}
+	}
+	return true
+}
+
 // c06AllShort reports whether m is non-empty and holds only short values.
 func c06AllShort(m c06Model) bool {
 	n := 0
